@@ -174,9 +174,6 @@ func runClose(p *Plan, tape *simrt.Tape, opt RunOpt) *RunOut {
 	if injected {
 		out.Faults["eio-open"]++
 	}
-	if p.Sim.Latency.StallOp > 0 && fs.Counts[simos.OpOpen]+fs.Counts[simos.OpWrite] > 0 {
-		out.Faults["stall"]++
-	}
 	out.Sample = fmt.Sprintf("mode=%d cfg=%+v x=%v", mode, p.Cfg, p.X)
 	return out
 }
